@@ -118,6 +118,17 @@ class C08Monitor(BookTracker):
     def ref(self, mkt):
         return self.refs.setdefault(mkt.market_id, Ref())
 
+    def running_of(self, ev):
+        """is the market running at this event? In a run without a halt rule that is what the CONFIGURATION says about
+        the current session (a session without execution = not running), not the flag the market carries; with a halt
+        rule, and in the direct drive, the flag is an input of the model."""
+        cur = getattr(self, "cur_session_exec", None)
+        if self.drive == "runner" and getattr(self, "no_halt_rule", False) and cur is not None:
+            if cur != bool(ev["running"]):
+                self.res.count("class/running_flag_differs_from_configured_session_switch")
+            return cur
+        return ev["running"]
+
     # -- model transitions ------------------------------------------------------
     def refresh(self, ref, book, running):
         bb, bs = book.best_price(True), book.best_price(False)
@@ -132,7 +143,7 @@ class C08Monitor(BookTracker):
         mkt = ev["mkt"]
         ref = self.ref(mkt)
         t = ev["time"]
-        running = ev["running"]
+        running = self.running_of(ev)
         if ref.t == -1:
             # first clock update: the configured initial market price is read once, here
             ref.t = t
@@ -186,12 +197,12 @@ class C08Monitor(BookTracker):
         ref = self.ref(mkt)
         if ref.t < 0:
             return
-        self._note(mkt, ev["running"])
+        self._note(mkt, self.running_of(ev))
         if so.is_buy:
             ref.nb[ref.t] += 1
         else:
             ref.ns[ref.t] += 1
-        self.refresh(ref, book, ev["running"])
+        self.refresh(ref, book, self.running_of(ev))
         self.compare(mkt, book, ref, "accept")
 
     def on_cancel(self, ev, book, so):
@@ -201,8 +212,8 @@ class C08Monitor(BookTracker):
         ref = self.ref(mkt)
         if ref.t < 0:
             return
-        self._note(mkt, ev["running"])
-        self.refresh(ref, book, ev["running"])
+        self._note(mkt, self.running_of(ev))
+        self.refresh(ref, book, self.running_of(ev))
         self.compare(mkt, book, ref, "cancel")
 
     def on_round(self, ev, book, pre, fills):
@@ -213,13 +224,13 @@ class C08Monitor(BookTracker):
         if ref.t < 0:
             return
         if fills:
-            self._note(mkt, ev["running"])
+            self._note(mkt, self.running_of(ev))
             for log, _, _ in fills:
                 ref.last[ref.t] = log.price
                 ref.vol[ref.t] += log.volume
                 ref.turn[ref.t] += log.volume * log.price
                 ref.ever_traded = True
-            self.refresh(ref, book, ev["running"])
+            self.refresh(ref, book, self.running_of(ev))
         self.compare(mkt, book, ref, "round" if fills else "empty-round")
 
     def on_round_exc(self, ev, book, pre):
@@ -242,6 +253,9 @@ class C08Monitor(BookTracker):
         elif ev["k"] == "log_write" and type(ev["log"]).__name__ == "SessionBeginLog":
             s = ev["log"].session
             self.__dict__.setdefault("session_exec_at_start", {})[s.session_id] = s.with_order_execution
+            sc = getattr(self, "sess_cfg", None)
+            if sc is not None and isinstance(s.session_id, int) and 0 <= s.session_id < len(sc):
+                self.cur_session_exec = bool(sc[s.session_id]["withOrderExecution"])
 
     # -- comparison with the public getters -----------------------------------
     def compare(self, mkt, book, ref, where, full=False):
@@ -344,6 +358,9 @@ def run_case(case, res):
         from ..runnerdrive import run_runner_case
 
         mon = C08Monitor(res, "runner")
+        mon.sess_cfg = case["config"]["simulation"]["sessions"]
+        mon.no_halt_rule = not any(isinstance(v, dict) and "TradingHaltRule" in str(v.get("class", ""))
+                                   for v in case["config"].values())
         out = run_runner_case(case, [mon.on_event])
         if out.error is not None:
             res.count("runner_case_aborted:" + type(out.error).__name__)
